@@ -86,6 +86,7 @@ def run(check, prog):
     names(check, prog)
     reusable(check, prog)
     saved(check, prog)
+    payload(check, prog)
     entry(check, prog)
     assembly(check, prog)
     reported(check, prog)
@@ -1098,3 +1099,184 @@ def wiring(check, prog):
         check.require(ok, 'L4-subset-iff-requested', short,
                       'make_subset_data(data, pixels=self.npixels) is used exactly when '
                       'npixels is given', prog.loc(q, fd))
+
+
+# ----------------------------------------------------------------------
+def payload(check, prog):
+    """L9: everything a result carries besides (data, model, strategy, time)
+    reaches the file and comes back.
+
+    Writer: each key of `_kwargs_keys` is stored, whatever its value, in exactly one
+    of two mappings -- the one merged into the dataset (labelled arrays) or the one
+    dumped as text under '_kwargs'.  Arrays going into the file have their metadata
+    packed; the reader unpacks the metadata of every array it takes out, restores
+    each named array from the variable of the same name, and the names it knows
+    include every labelled array that a strategy of the package puts into a result."""
+    from hpstatic.logic import resolve, eval3
+    PACK, UNPACK = 'holopy.core.io.io.pack_attrs', 'holopy.core.io.io.unpack_attrs'
+    q = R + '._serialize_as_dataset'
+    fd = prog.func(q)
+    loc = prog.loc(q, fd)
+    it = Interp(prog, max_depth=1, opaque=[PACK])
+    ret = it.analyze(q).ret
+    me = sym(fd.args.args[0].arg)
+    keys = intern(('attr', me, '_kwargs_keys'))
+    lps = [(lid, l) for lid, l in it.loops.items() if l['iter'] == keys]
+    if len(lps) != 1:
+        check.bad('L9-result-payload', 'FitResult._serialize_as_dataset',
+                  'no single loop over the extra attribute names (_kwargs_keys)', loc)
+        return
+    lid, lp = lps[0]
+    key = intern(('elem', keys, lid))
+    V = intern(('call', 'getattr', (me, key), ()))
+
+    def strip_copy(t):
+        while t[0] == 'copy':
+            t = t[2]
+        while t[0] == 'call' and t[1] in ('copy.copy', 'copy.deepcopy') and len(t[2]) == 1:
+            t = t[2][0]
+        return t
+    carriers = {n: st for n, (init, st) in lp['vars'].items()
+                if init == ('dict', ()) and st is not None}
+    guards = []
+    for st in carriers.values():
+        for x in subterms(st):
+            if x[0] == 'ite' and x[1] not in guards:
+                guards.append(x[1])
+    isda = intern(('call', 'isinstance', (V, ('extref', 'xarray.DataArray')), ()))
+    rows = {}
+    for arr in (True, False):
+        hyp = lambda t, arr=arr: arr if t == isda else None
+        got = []
+        for n, st in carriers.items():
+            r = resolve(st, hyp)
+            if r[0] == 'upd' and r[1] == ('phi', n, lid) and r[2] == 'item' and \
+                    r[3] == key and strip_copy(r[4]) == V:
+                got.append(n)
+            elif r != ('phi', n, lid):
+                got.append('?' + n)
+        rows[arr] = got
+    ok = all(len(v) == 1 and not v[0].startswith('?') for v in rows.values()) and \
+        rows[True] != rows[False]
+    check.require(ok, 'L9-result-payload', 'FitResult._serialize_as_dataset extras',
+                  'every extra attribute is stored under its own name in exactly one '
+                  'carrier: labelled arrays in one mapping, everything else in the other',
+                  loc, fail_detail='carriers receiving getattr(self, key): for a labelled '
+                  'array %s, otherwise %s' % (rows[True], rows[False]))
+    if ok:
+        xr_name, y_name = rows[True][0], rows[False][0]
+
+        def holds(t, name):
+            return any(x[0] == 'loop' and x[1] == name and x[2] == lid for x in subterms(t))
+        merged = [c for c in calls_in(ret, 'xarray.merge') if c[2] and
+                  c[2][0][0] in ('list', 'tuple') and
+                  any(holds(x, xr_name) for x in c[2][0][1])]
+        dumped = [x for x in subterms(ret) if x[0] == 'upd' and x[2] == 'item' and
+                  x[3] == ('const', '_kwargs') and x[4][0] == 'call' and
+                  x[4][1] == 'yaml.dump' and x[4][2] and holds(x[4][2][0], y_name)
+                  and not holds(x[4][2][0], xr_name)]
+        check.require(bool(merged) and bool(dumped), 'L9-result-payload',
+                      'FitResult._serialize_as_dataset carriers',
+                      "the array mapping is merged into the dataset, the other one is "
+                      "dumped under '_kwargs'", loc,
+                      fail_detail='merged into the dataset: %s; dumped under _kwargs: %s'
+                      % (bool(merged), bool(dumped)))
+    # packed on the way out ...
+    packed = [e for e in it.effects if e['kind'] == 'setattr' and e['attr'] == 'attrs'
+              and strip_copy(e['value'])[0] == 'call' and strip_copy(e['value'])[1] == PACK]
+    def ite_leaves(t):
+        return ite_leaves(t[2]) + ite_leaves(t[3]) if t[0] == 'ite' else [t]
+    data_packed = any(all(b[0] == 'attr' and b[2] == 'data' for b in ite_leaves(e['base']))
+                      and any(x == ('attr', me, 'data') for x in subterms(e['base']))
+                      and strip_copy(e['value'])[2][0] == e['base']
+                      for e in packed)
+    items_packed = ok and any(
+        any(x[0] == 'phi' and x[1] == rows[True][0] for x in subterms(e['base']))
+        and any(c[0][0] == 'loop-iter' for c in e['cond']) for e in packed)
+    check.require(data_packed, 'L9-result-payload', 'FitResult._serialize_as_dataset data',
+                  'the metadata of the fitted data is packed before writing', loc)
+    check.require(items_packed, 'L9-result-payload',
+                  'FitResult._serialize_as_dataset arrays',
+                  'the metadata of every labelled array is packed before writing', loc)
+    # ... and unpacked on the way in
+    q2 = R + '._unserialize'
+    fd2 = prog.func(q2)
+    loc2 = prog.loc(q2, fd2)
+    it2 = Interp(prog, max_depth=1, opaque=[UNPACK])
+    ret2 = it2.analyze(q2).ret
+    ds = sym(fd2.args.args[1].arg)
+
+    def var_of(t):
+        """name of the dataset variable `t` denotes"""
+        if t[0] == 'attr' and t[1] == ds:
+            return t[2]
+        if t[0] == 'idx' and t[1] == ds and t[2][0] == 'const':
+            return t[2][1]
+        if t[0] == 'call' and t[1] == 'getattr' and len(t[2]) == 2 and t[2][0] == ds \
+                and t[2][1][0] == 'const':
+            return t[2][1][1]
+        return None
+    unpacked = set()
+    for e in it2.effects:
+        if e['kind'] == 'setattr' and e['attr'] == 'attrs':
+            v = strip_copy(e['value'])
+            if v[0] == 'call' and v[1] == UNPACK and len(v[2]) == 1 and \
+                    v[2][0] == ('attr', e['base'], 'attrs') and var_of(e['base']):
+                unpacked.add(var_of(e['base']))
+    restored, crossed = set(), []
+    for e in it2.effects:
+        if e['kind'] == 'setitem' and e['key'][0] == 'const' and \
+                any(x[0] == 'idx' and x[2] == ('const', '_kwargs') for x in subterms(e['base'])):
+            src = var_of(e['value'])
+            if src is None:
+                continue
+            if src != e['key'][1]:
+                crossed.append((e['key'][1], src))
+            restored.add(e['key'][1])
+    check.require('data' in unpacked, 'L9-result-payload', 'FitResult._unserialize data',
+                  'the metadata of the fitted data is unpacked after reading', loc2)
+    check.require(not crossed and restored <= unpacked, 'L9-result-payload',
+                  'FitResult._unserialize arrays',
+                  'each labelled array %s comes from the variable of the same name and '
+                  'has its metadata unpacked' % sorted(restored), loc2,
+                  fail_detail='restored from another variable: %s; not unpacked: %s' % (
+                      crossed, sorted(restored - unpacked)))
+    # the arrays strategies put into results
+    need = {}
+    results = set(prog.subclasses(R))
+    nsites = 0
+    for mname, m in sorted(prog.modules.items()):
+        if not mname.startswith(INF) or 'third_party' in mname:
+            continue
+        for cq in [c for c in prog.classes if prog.classes[c].module is m]:
+            for meth, mfd in prog.classes[cq].methods.items():
+                names_ = {n.func.id for n in ast.walk(mfd) if isinstance(n, ast.Call)
+                          and isinstance(n.func, ast.Name)}
+                if not any(prog.resolve_name(mname, n)[0] == 'class' and
+                           prog.resolve_name(mname, n)[1] in results for n in names_):
+                    continue
+                it3 = Interp(prog, max_depth=2, inline_new=False)
+                try:
+                    r3 = it3.analyze(cq + '.' + meth)
+                except AnalysisError:
+                    continue
+                for x in subterms(r3.ret):
+                    if x[0] == 'new' and x[1] in results:
+                        kwt = x[2][4] if len(x[2]) > 4 else dict(x[3]).get('kwargs')
+                        if kwt is None or kwt[0] != 'dict':
+                            continue
+                        nsites += 1
+                        for k, v in kwt[1]:
+                            t = v
+                            while t[0] == 'upd':
+                                t = t[1]
+                            if k[0] == 'const' and t[0] == 'call' and \
+                                    t[1] == 'xarray.DataArray':
+                                need.setdefault(k[1], cq + '.' + meth)
+    check.floor('result construction sites with literal extras', nsites, 4)
+    missing = sorted(set(need) - restored)
+    check.require(not missing, 'L9-result-payload', 'FitResult._unserialize names',
+                  'every labelled array a strategy stores in a result (%s) is restored'
+                  % sorted(need), loc2,
+                  fail_detail='%s put into results by %s but never read back' % (
+                      missing, sorted({need[k] for k in missing})))
